@@ -231,5 +231,14 @@ func UnusedRules() []TextCase {
 	add("two/back", []string{used[0], used[1], used[2], spare[0], spare[1]})
 	add("three", []string{used[0], spare[0], used[1], spare[1], used[2], spare[2]})
 	add("four", []string{used[0], spare[3], spare[0], used[1], spare[1], used[2], spare[2]})
+	// a construct that occurs only in an unused rule (the runtime helpers the template declares
+	// depend on which constructs the grammar uses)
+	bases := []string{"S <- 'x'", "S <- [a-c]", "S <- .", "S <- 'x' T\nT <- [a-c] 'y'"}
+	only := []string{"U <- .", "U <- [^a]", "U <- 'xy'", "U <- 'z'", "U <- [d-f]", "U <- <'x'> { p.N++ }", "U <- { p.N++ }", "U <- &{ true } 'x'", "U <- !{ p.N++ } 'x'", `U <- "k"`, "U <- [[a]]", "U <- !.", "U <- 'x' U?"}
+	for bi, b := range bases {
+		for oi, o := range only {
+			add(fmt.Sprintf("only/%d/%d", bi, oi), []string{b, o})
+		}
+	}
 	return out
 }
